@@ -236,7 +236,6 @@ class SimKernel:
                 raise OSError(errno.ENOENT, 'No such file or directory (injected)')
         pid = self.next_pid
         self.next_pid += 1
-        n = sum(1 for q in self.procs.values() if q.ppid == DAEMON_PID or q.spawn_no) + 1
         if beh is None:
             beh = self.beh_for(argv, self.spawn_attempts)
         p = P(pid, ppid, list(argv), env, cwd, beh, self.clock.now)
@@ -541,6 +540,13 @@ class FakeStream:
     def send(self, data, flags=0, **kw):
         w = _CUR
         self.frames.append((w.clock.now, w.loop_iter(), data, flags))
+        if not flags and w.reply_hooks:
+            try:
+                body = json.loads(data)
+            except Exception:
+                body = None
+            for cb in list(w.reply_hooks):
+                cb(body)
 
     def flush(self, *a, **kw):
         pass
@@ -641,6 +647,7 @@ class World:
         self.sent = {}          # mid -> dict(cmd, props, t, iter)
         self.escaped = []       # exceptions that escaped handle_message
         self.check_errors = []
+        self.reply_hooks = []   # callables(body) run at the instant a reply body is written
         _AUDIT['hits'].clear()
         _AUDIT['on'] = True
 
